@@ -10,6 +10,7 @@
 //!   zz I64 / uzz U64  -> number                           zigzag / unzigzag
 //!   sc KIND VAL       -> `HEX sz=N rt=..`  one bare field type (no tag): pack, pack_sz, unpack
 //!   scd KIND HEX      -> `ok VAL rest=HEX` | `err CODE`    one bare field type: unpack
+//!   repack NAME HEX   -> `ok HEX rest=HEX` | `err CODE`    a message type the repository declares: unpack, pack again
 //!   deep N            -> `ok depth=N bytes=B` | `err CODE`  N nested messages of the recursive type Tree (own process)
 //! VAL grammar:  INT | xHEX | ( VAL* ) | #K VAL     (see checks/c15.py)
 #![allow(non_camel_case_types, dead_code)]
@@ -654,6 +655,21 @@ fn deep_input(depth: usize) -> Vec<u8> {
 // buffertk's own Packable / Unpackable for Result<T, E>, used directly (not as a field)
 type ResTop = Result<Inner, MyErr>;
 
+// ------------------------------------------------------------ the messages the repository declares
+// (round 2) reached without hand-written values: decode bytes as the real type, encode the value again
+fn repack_as<'a, T>(buf: &'a [u8]) -> Result<(Vec<u8>, usize), String>
+where
+    T: Unpackable<'a> + Packable,
+    <T as Unpackable<'a>>::Error: Into<SError>,
+{
+    match T::unpack(buf) {
+        Ok((t, rest)) => Ok((stack_pack(&t).to_vec(), rest.len())),
+        Err(e) => Err(code(&e.into())),
+    }
+}
+// generated by checks/c15.py: prototk's test declarations and one arm per declared type
+include!(concat!(env!("CARGO_MANIFEST_DIR"), "/src/c15_gen/arms.rs"));
+
 // --------------------------------------------------------------------------------------- running
 fn code(e: &SError) -> String {
     prototk::error_code(e).unwrap_or("no-code").to_string()
@@ -854,6 +870,22 @@ fn run(line: &str) -> String {
         "uzz" => {
             let n: u64 = rest.trim().parse().expect("HARNESS-PARSE u64");
             format!("{}", prototk::unzigzag(n))
+        }
+        "repack" => {
+            // repack sst::Type HEX | repack prototk::tests_<file>::Type HEX
+            let (name, arg) = rest.split_once(' ').unwrap_or((rest, ""));
+            let buf = unhex(arg);
+            let parts: Vec<&str> = name.split("::").collect();
+            let r = match parts.as_slice() {
+                ["sst", t] => sst::verif_repack(t, &buf),
+                ["prototk", file, t] => gen_repack(file, t, &buf),
+                _ => None,
+            };
+            match r {
+                Some(Ok((bytes, left))) => format!("ok {} rest={}", hex(&bytes), hex(&buf[buf.len() - left..])),
+                Some(Err(c)) => format!("err {}", c),
+                None => panic!("HARNESS-PARSE unknown declared type"),
+            }
         }
         "deep" => {
             // decode a deeply nested encoding of the recursive type Tree (run in its own process by the check:
